@@ -127,9 +127,11 @@ def selected (st : List Node) (nf : NodeFilter) (n : Node) : Bool :=
   if nf.includes.length ≠ 0 then nf.includes.contains n.name && st.contains n
   else st.contains n && listable nf n && !nf.excludes.contains n.name
 
-/-- clauses violated by an answer `out` (names) of the implementation -/
+/-- clauses violated by an answer `out` (names) of the implementation; a distinct but unsorted answer
+    is not a C21 violation (the order matters for C20 only) and is tagged `order:` -/
 def filterViolations (st : List Node) (nf : NodeFilter) (out : List String) : List String :=
-  (if strictAsc out then [] else ["C21:not-distinct-ascending"]) ++
+  (if strictAsc out then [] else if out.eraseDups.length != out.length then ["C21:duplicate-node"]
+   else ["order:not-ascending"]) ++
   (if out.all (fun nm => st.any fun n => n.name == nm && selected st nf n) then [] else ["C21:extra-node"]) ++
   (if st.all (fun n => !selected st nf n || out.contains n.name) then [] else ["C21:missing-node"])
 
